@@ -190,6 +190,37 @@ def run(R, only=None):
         live = [(k, v) for k, v in rows if v != dele]
         want = [(k, v) for k, v in live if in_range(r, k) and (resid is None or (v > 3 if resid == "b > 3" else v < 8))]
         sc.append({"steps": steps, "want": want, "sel": sel, "q": q, "pos": pos, "block": rng.choice([64, 128, None])})
+    # other key types and bound constants: BIGINT and VARCHAR primary keys, INT keys compared with BIGINT / DECIMAL constants
+    # (the storage seeks and masks INT keys with INT bounds only: every other range has to stay a filter)
+    for i in range(24 if R.tier == "quick" else 300):
+        rng = R.rng
+        kind = rng.choice(["bigint", "varchar", "int-bigconst", "int-decimal"])
+        n = rng.choice([3, 8, 30])
+        if kind == "varchar":
+            keys = rng.sample([f"k{j:03d}" for j in range(4 * n)], n)
+            lit = lambda k: f"'{k}'"
+            decl, bound = "a varchar primary key, b int", rng.choice(keys + ["k", "k999", "k0105"])
+            blit = f"'{bound}'"
+        else:
+            keys = rng.sample(range(0, 4 * n), n)
+            if kind == "bigint":
+                keys = [k + rng.choice([0, 0, 5000000000]) for k in keys]
+            lit = str
+            decl = "a bigint primary key, b int" if kind == "bigint" else "a int primary key, b int"
+            bound = rng.choice(keys + [rng.randint(-1, 4 * n)])
+            blit = str(bound) if kind == "bigint" else (f"cast({bound} as bigint)" if kind == "int-bigconst" else f"{bound}.5")
+            if kind == "int-decimal":
+                bound = bound + 0.5
+        rows = [(k, rng.randint(0, 9)) for k in keys]
+        op = rng.choice(["=", "<", "<=", ">", ">="])
+        steps = [{"sql": f"create table t({decl})"}]
+        for bt in ([rows[: n // 2], rows[n // 2:]] if rng.random() < 0.5 else [rows]):
+            if bt:
+                steps.append({"sql": "insert into t values " + ", ".join(f"({lit(k)}, {v})" for k, v in bt)})
+        q = f"select a, b from t where a {op} {blit}"
+        steps += [{"sql": q}, {"sql": "pragma disable_optimizer"}, {"sql": q}]
+        cmp = {"=": lambda x: x == bound, "<": lambda x: x < bound, "<=": lambda x: x <= bound, ">": lambda x: x > bound, ">=": lambda x: x >= bound}[op]
+        sc.append({"steps": steps, "want": [(k, v) for k, v in rows if cmp(k)], "sel": "a, b", "q": q, "pos": 0, "block": rng.choice([64, None])})
     so = run_harness("sql", [{"engine": "disk", "steps": c["steps"], **({"block": c["block"]} if c["block"] else {})} for c in sc], jobs=16)
     for c, o in zip(sc, so):
         if not isinstance(o, list) or len(o) < len(c["steps"]):
@@ -211,7 +242,8 @@ def run(R, only=None):
         "evaluations": len(terms) + len(sc), "distinct_nontrivial": len(nontriv),
         "rule": "row-sets with a sorted INT key (duplicates, 1-120 rows, block sizes 32..128 so that there are many blocks, 1-3 appends), "
                 "delete vectors, every bound kind (=, <, <=, >, >=, two-sided, absent) on present / absent / extreme keys, batch sizes; "
-                "SQL WHERE on the key with residual predicates, key at table position 0 or 1, optimizer on/off; non-trivial = >= 2 blocks and a range",
+                "SQL WHERE on the key with residual predicates and redundant looser bounds, key at table position 0 or 1, optimizer on/off; BIGINT and VARCHAR "
+                "primary keys and INT keys compared with BIGINT / DECIMAL constants; non-trivial = >= 2 blocks and a range",
         "samples": [{k: cases[0][k] for k in ("block", "chunks", "scans")}], "range_kind_distribution": kinds,
         "sql_cases": len(sc), "model_vs_impl_disagreements": len(failing),
     })
